@@ -116,7 +116,7 @@ def generate(tier):
                             continue  # outside the protocol
                         cases.append({"rows": rows, "durs": durs, "form": "time_course", "points": pts, "relative": rel, "start": start, "grid": []})
             if len(durs) <= 2 and start != "late":
-                for cols in ("ck", "k"):
+                for cols in ("ck", "k", "mixed"):
                     cases.append({"rows": rows, "durs": durs, "form": "protocol", "tps": 3, "start": start, "cols": cols})
                     for sub in subsets:
                         if len(sub) == 1 and max(cand[i] for i in sub) > 0.0:
@@ -136,8 +136,10 @@ def check(case):
     nt = len(case["durs"]) >= 2 or case["start"] != "fresh"
     txt = f"{case}"
     # the steps' dictionaries as written (k, c), with the keys the other way round, or naming k only
-    shape = {"kc": dict, "ck": lambda r: dict(reversed(list(r.items()))), "k": lambda r: {"k": r["k"]}}[case.get("cols", "kc")]
+    shape = {"kc": dict, "ck": lambda r: dict(reversed(list(r.items()))), "k": lambda r: {"k": r["k"]}}[case.get("cols", "kc") if case.get("cols") != "mixed" else "kc"]
     steps = [(d, shape(ROWS[r])) for r, d in zip(case["rows"], case["durs"], strict=True)]
+    if case.get("cols") == "mixed":  # every second step writes its dictionary the other way round
+        steps = [(d, dict(reversed(list(r.items()))) if i % 2 else r) for i, (d, r) in enumerate(steps)]
     protocol = mxlpy.make_protocol(steps)
     sim = Simulator(make_model())
     # reference bookkeeping
